@@ -105,9 +105,15 @@ Mutate(o, kind, i) ==
        [] kind = "set_kw" ->
             (i \in 1..Len(ob.ops) /\ heap[ob.ops[i]].hasargs
                /\ heap' = [heap EXCEPT ![heap[ob.ops[i]].kw].items = DictPut(@, "zz", Num(7))] /\ UNCHANGED <<objs, next>>)
-       [] kind = "array_elem" ->       \* an element of the array variable M
-            (i = 1 /\ \E j \in 1..Len(heap[ob.vars].items) : heap[ob.vars].items[j].key = "M" /\ heap[ob.vars].items[j].v.k = "ref"
+       [] kind = "array_elem" ->       \* an element of an array variable: M (had a parameter, i = 1) or Q (never had one, i = 2)
+            (i \in 1..2 /\ \E j \in 1..Len(heap[ob.vars].items) : heap[ob.vars].items[j].key = (IF i = 1 THEN "M" ELSE "Q") /\ heap[ob.vars].items[j].v.k = "ref"
                /\ heap' = [heap EXCEPT ![heap[ob.vars].items[j].v.c].rows[1][1] = Num(-5)] /\ UNCHANGED <<objs, next>>)
+       [] kind = "del_var" ->          \* a variable removed from the variable dict
+            (i = 1 /\ \E j \in 1..Len(heap[ob.vars].items) : heap[ob.vars].items[j].key = "v"
+               /\ heap' = [heap EXCEPT ![ob.vars].items = SelectSeq(@, LAMBDA it : it.key # "v")] /\ UNCHANGED <<objs, next>>)
+       [] kind = "opt_replace" ->      \* an element of the list inside a target option overwritten
+            (i = 1 /\ \E j \in 1..Len(heap[ob.opts].items) : heap[ob.opts].items[j].v.k = "ref"
+               /\ heap' = [heap EXCEPT ![heap[ob.opts].items[j].v.c].xs[1] = Num(-8)] /\ UNCHANGED <<objs, next>>)
        [] kind = "arg_array_elem" ->   \* an element of an array that is an operation's argument
             (i \in 1..Len(ob.ops) /\ heap[ob.ops[i]].hasargs /\ \E j \in 1..Len(heap[heap[ob.ops[i]].args].xs) :
                  heap[heap[ob.ops[i]].args].xs[j].k = "ref" /\ heap[heap[heap[ob.ops[i]].args].xs[j].c].k = "arr"
